@@ -271,6 +271,133 @@ def _mentions_callee(n, path):
     return False
 
 
+def inline_extracted_helpers(crate):
+    """EXTRACT FUNCTION undone: a private function that the reviewed tree does not have (rules/names.json; not a renamed one either), that is called
+    from exactly one place, never calls itself and never leaves early (`return`, `?` outside closures) is put back where it is called: the call
+    becomes the block `{ let <param> = <argument>; ..; <body> }` (the helper's locals renumbered), its MIR facts (calls, asserts, casts) go to the
+    caller and the helper is dropped. Every rule - also those that walk the typed tree of a public function looking for its loops, writes and
+    panic sites - then sees the code where it was before the extraction. Returns the list of inlined paths."""
+    base = _baseline_names().get(crate.name, {}).get("fns", {})
+    if not base:
+        return []
+    done = []
+    for _round in range(4):
+        fns = {p: b for p, b in crate.bodies.items() if b.get("dk") in ("Fn", "AssocFn") and "body" in b}
+        cands = [p for p, b in fns.items() if p not in base and not b.get("pub") and not b.get("impl_trait")]
+        progress = False
+        for h in cands:
+            H = fns[h]
+            sites = []
+            for fp, F in crate.bodies.items():
+                if "body" not in F:
+                    continue
+                for n in _all_nodes(F["body"]):
+                    if n.get("k") in ("Call", "MethodCall") and n.get("callee") == h:
+                        sites.append((F, n))
+                    elif n.get("k") == "Path" and n.get("r") == "def" and n.get("path") == h:
+                        sites.append((F, None))          # used as a value (fn pointer): not a plain call
+            if len(sites) != 1 or sites[0][1] is None or sites[0][0] is H:
+                continue
+            F, call = sites[0]
+            params = H.get("params", [])
+            args = ([call["recv"]] + call["args"]) if call["k"] == "MethodCall" else call["args"]
+            if len(params) != len(args) or any(p_.get("k") != "Bind" for p_ in params):
+                continue
+            leaves_early = False
+            for n in walk(H["body"], into_closures=False):
+                if n.get("k") == "Ret" or (n.get("k") == "Match" and str(n.get("src", "")).startswith("TryDesugar")):
+                    leaves_early = True
+            if leaves_early:
+                continue
+            off = 1000000 * (len(done) + 1)
+            for n in _all_nodes(H["body"]) + _all_nodes(params):
+                if (n.get("k") == "Bind" or (n.get("k") == "Path" and n.get("r") == "local")) and isinstance(n.get("id"), int):
+                    n["id"] += off
+            stmts = [{"k": "SLet", "pat": p_, "init": a, "sp": call.get("sp", "")} for p_, a in zip(params, args)]
+            hb = strip(H["body"])
+            where = _statement_evaluating_first(F["body"], call)
+            if where is not None and hb.get("k") == "Block" and "expr" in hb["b"]:
+                # the call is the first thing its statement evaluates (`let x = h(..);`, `for y in h(..) {`, `h(..);`): the helper's statements
+                # go in front of that statement and its value takes the place of the call - the shape before the extraction
+                blk, i = where
+                tail = hb["b"]["expr"]
+                pre = stmts + list(hb["b"]["stmts"])
+                st = blk["stmts"][i]
+                if st.get("k") == "SLet" or strip(st.get("e", {})) is call:
+                    blk["stmts"][i:i] = pre
+                    call.clear()
+                    call.update(tail)
+                else:
+                    # `for y in h(..)`: the value is bound first, `let v = <value>; for y in v`
+                    fid = off + 999999
+                    ty = call.get("ty", H.get("output", ""))
+                    pre.append({"k": "SLet", "pat": {"k": "Bind", "id": fid, "name": "__value_of_" + h.rsplit("::", 1)[1], "mode": "BindingMode(No, Not)", "mut": False,
+                                                       "byref": False, "ty": ty}, "init": tail, "sp": call.get("sp", "")})
+                    blk["stmts"][i:i] = pre
+                    sp = call.get("sp", "")
+                    call.clear()
+                    call.update({"k": "Path", "r": "local", "id": fid, "name": "__value_of_" + h.rsplit("::", 1)[1], "ty": ty, "sp": sp})
+            else:
+                block = {"k": "Block", "b": {"stmts": stmts, "expr": H["body"]}, "ty": call.get("ty", H.get("output", "")), "sp": call.get("sp", "")}
+                call.clear()
+                call.update(block)
+            hm, fm = H.get("mir") or {}, F.setdefault("mir", {})
+            owner = F
+            if F.get("dk") == "Closure":
+                pass
+            for key in ("calls", "asserts", "casts"):
+                if hm.get(key):
+                    fm.setdefault(key, [])
+                    fm[key] = list(fm[key]) + list(hm[key])
+            del crate.bodies[h]
+            done.append(h)
+            progress = True
+        if not progress:
+            break
+    return done
+
+
+def _statement_evaluating_first(root, call):
+    """(block, index) of the statement of which `call` is the first thing evaluated: the init of a `let`, the iterated expression of a `for`
+    statement, or the whole expression statement; None otherwise"""
+    def same(e):
+        while isinstance(e, dict) and e is not call and e.get("k") in ("DropTemps", "Use", "AddrOf"):
+            e = e["e"]
+        return e is call
+    for blk in _all_nodes(root):
+        if blk.get("k") is not None or "stmts" not in blk:
+            continue
+        for i, st in enumerate(blk["stmts"]):
+            k = st.get("k")
+            if k == "SLet" and "init" in st and same(st["init"]):
+                return blk, i
+            if k in ("SSemi", "SExpr"):
+                e = strip(st["e"])
+                if e is call:
+                    return blk, i
+                if isinstance(e, dict) and e.get("k") == "Match" and e.get("src") == "ForLoopDesugar":
+                    sc = strip(e["scrut"])
+                    if sc.get("k") == "Call" and str(sc.get("callee", "")).endswith("IntoIterator::into_iter") and sc.get("args") and same(sc["args"][0]):
+                        return blk, i
+    return None
+
+
+def _all_nodes(n):
+    out = []
+
+    def rec(x):
+        if isinstance(x, dict):
+            out.append(x)
+            for v in x.values():
+                if isinstance(v, (dict, list)):
+                    rec(v)
+        elif isinstance(x, list):
+            for v in x:
+                rec(v)
+    rec(n)
+    return out
+
+
 class Crate:
     def __init__(self, path):
         with open(path) as fh:
@@ -291,6 +418,7 @@ class Crate:
         self.adts = {a["path"]: a for a in d["adts"]}
         self.impls = d["impls"]
         self._annotate()
+        self.inlined = inline_extracted_helpers(self)
         for b in self.bodies.values():
             if "body" in b:
                 lower_while_next(b["body"])
